@@ -552,6 +552,13 @@ func genCase(r *rng, c *caseT) {
 			}
 			c.temp(r.intn(2) == 0, n)
 			c.temp(r.intn(2) == 0, n)
+			if i == 0 {
+				// fixed IDs that spell a counter: main and temporary names must still differ
+				v6 := r.intn(2) == 0
+				c.temp(v6, n)
+				c.mainStatic(v6, strconv.FormatUint(n, 10))
+				c.mainStatic(v6, "t"+strconv.FormatUint(n, 10))
+			}
 		}
 		if r.intn(3) == 0 {
 			// fixed IDs longer than the room: cut by the code; outside the domain (reported, not judged apart)
